@@ -113,10 +113,10 @@ impl Task {
         *final(c) == (Cells { t_end: time as int, ..*old(c) }),
 //@@ end
 //@@ extract file=acts/src/scheduler/process/task.rs in="impl Task" item="fn set_state" name=Task::set_state
-//@@ rw R7 `self . id == TASK_ROOT_TID` => `str_is(&self.id, TASK_ROOT_TID)`
+//@@ rw R7 `self . id == TASK_ROOT_TID` => `str_is(&self.id, TASK_ROOT_TID)` {*}
 //@@ rw R11 `* self . state . write ( ) . unwrap ( ) = state . clone ( ) ;` => `self.w_state(clone_state(&state));`
-//@@ rw R7 `self . proc ( ) . set_state ( state . clone ( ) )` => `self.proc().set_state(clone_state(&state))`
-//@@ rw R11 `* self . err . write ( ) . unwrap ( ) = None ;` => `self.w_err(None);`
+//@@ rw R7 `self . proc ( ) . set_state ( state . clone ( ) )` => `self.proc().set_state(clone_state(&state))` {*}
+//@@ rw R11 `* self . err . write ( ) . unwrap ( ) = None ;` => `self.w_err(None);` {*}
 //@@ spec
     ensures
         //# P1-task-state-write-and-root-mirror
